@@ -30,7 +30,7 @@ impl<T: BlockType> IntVector<T> {
     pub fn block_with_fill(element_bits: usize, block_len: usize, value: T) -> (r: Self)
         requires 1 <= element_bits <= blk_bits::<T>(),
         ensures r.element_bits_spec() == element_bits, r.block_len_spec() == block_len,
-            r@.len() == (block_len * blk_bits::<T>()) / (element_bits as int),
+            r@.len() == (block_len * blk_bits::<T>()) / (element_bits as int), r@.len() <= u64::MAX,
             value.val() == 0 ==> forall|i: int| 0 <= i < r@.len() ==> (#[trigger] r@[i]).val() == 0,
     { unimplemented!() }
 
